@@ -6,6 +6,7 @@ CONSTANTS
   Paths <- TracePaths
   Kinds <- TraceKinds
   InitClosed = FALSE
+  SplitClose = FALSE
 INVARIANTS TypeOK CloseOnce ReleaseOnce ReadersExact CloseOnlyUnread NoReadAfterClose Structure NoLeak NoOrphan FinalOK
 POSTCONDITION TraceAccepted
 CHECK_DEADLOCK FALSE
